@@ -229,10 +229,18 @@ class Commands(Stage):
 
     def gen(self, d, tier):
         specs = histgen.history(d, nconn=d.int(1, 2), nmsg=d.int(0, 8), profile=PROFILE) if d.chance(0.7) else []
+        if specs and d.chance(0.3):
+            # a log cut at the front (the connection's side is unknown) in which the connection still gets a title
+            specs = [m for m in specs if m['name'] != 'get_registry'] or specs
+            tag = specs[0]['conn']
+            specs.append(dict(conn=tag, t_us=specs[-1]['t_us'] + 1000, sent=True, iface='xdg_toplevel', id=900 + d.int(0, 3), name=d.choice(['set_title', 'set_app_id']),
+                              args=[['str', d.choice(['editor', 'org.gnome.gedit', 'a b', 'x'])]]))
         cmds = []
         for _ in range(d.int(1, 5)):
-            k = d.int(0, 11)
-            if k >= 10:
+            k = d.int(0, 12)
+            if k == 12:
+                c = d.choice(['connection', 'connection', 'c', 'connection A', 'connection all', 'connection editor', 'connection x'])
+            elif k >= 10:
                 # a command whose argument is itself a command word or just the GDB-style prefix
                 c = d.choice(['help', 'h', 'wl help', 'wlhelp', 'w help', 'list', 'filter', 'breakpoint', 'connection', 'matcher', 'wl list', 'wlconnection', 'resume', 'quit']) + ' ' + d.choice(
                     ['wl', 'w', 'wl ', 'wl wl', 'wlhelp', 'wl help', 'help', 'list', 'wllist', 'wl list', ' ', '~', 'all', '', 'wl  ', 'wlwl', 'wl~', 'wl ~ 2'])
@@ -302,7 +310,8 @@ class Bytes(Stage):
         # the sandbox only has C locales, where Python decodes standard input with surrogateescape; under an ordinary UTF-8 locale
         # (en_US.UTF-8 ...) standard streams decode strictly - PYTHONIOENCODING reproduces exactly that
         return dict(data=list(bytes(b)), exit=d.choice([0, 3]), mode=d.choice(['file', 'pipe', 'pipe', 'run']), stdio=d.choice([None, 'utf-8:strict', 'utf-8:strict']),
-                    no_stdin=d.chance(0.35))      # nobody at the prompt: standard input at end of file
+                    no_stdin=d.chance(0.35),      # nobody at the prompt: standard input at end of file
+                    linger=d.choice([0, 0, 0, 0, 1.3]))      # (run mode) the program closes its stderr and only exits later
 
     def execute(self, case):
         res = Result()
@@ -318,10 +327,20 @@ class Bytes(Stage):
                 want = 0
             else:
                 child = sc.write('child.py', cli.CHILD)
-                spec = sc.write('spec.json', json.dumps(dict(report=sc.path('report.json'), chunks=[[list(data), 0]], exit=case['exit'])))
+                spec = sc.write('spec.json', json.dumps(dict(report=sc.path('report.json'), chunks=[[list(data), 0]], exit=case['exit'], linger=case.get('linger', 0))))
                 rc, out, err = cli.run_main(['-C', '-r', cli.PY, child], stdin=b'' if case.get('no_stdin') else b'q\n', extra_env=dict(xenv, WDV_CHILD_SPEC=spec))
                 want = case['exit']
         mode = case['mode']
+        if mode == 'run' and case.get('linger') and rc is not None and b'Failed to join subprocess thread' in err:
+            # the program closed its stderr and exited 1.3 s later: the tool has to wait for it. Once more before it counts
+            # (wall-clock effects must not raise an alarm)
+            with cli.Scratch() as sc:
+                child = sc.write('child.py', cli.CHILD)
+                spec = sc.write('spec.json', json.dumps(dict(report=sc.path('report.json'), chunks=[[list(data), 0]], exit=case['exit'], linger=case['linger'])))
+                rc2, out2, err2 = cli.run_main(['-C', '-r', cli.PY, child], stdin=b'' if case.get('no_stdin') else b'q\n', extra_env=dict(xenv, WDV_CHILD_SPEC=spec))
+            if rc2 is not None and b'Failed to join subprocess thread' in err2:
+                res.bad('traceback:run:lingering-program', 'program closed stderr and exited %d after 1.3 s: wayland-debug gave up waiting for it twice (exit %r): %r' % (case['exit'], rc2, err2[-200:]))
+            return res
         if rc is None or b'Failed to join subprocess thread' in err:
             res.label('timeout(inconclusive)')
             return res
